@@ -1184,7 +1184,7 @@ _BASIC_CONVERTERS: t.Dict[type, Converter[t.Any]] = {
     int: ScalarConverter(int, int, 'an int', 'ints', int),
     bool: ScalarConverter(bool, bool, 'a bool', 'bools'),
     str: ScalarConverter(str, str, 'a string', 'strings', str),
-    bytes: ScalarConverter(bytes, (bytes, bytearray), 'a bytestring', 'bytestrings'),
+    bytes: ScalarConverter(bytes, (bytes, bytearray), 'a bytestring', 'bytestrings', bytes),
     bytearray: ScalarConverter(bytearray, (bytes, bytearray), 'a bytearray', 'bytearrays'),
     type(None): NoneConverter(),
     datetime.datetime: DatetimeConverter(datetime.datetime),
